@@ -157,6 +157,7 @@ fn new_shared() -> (Arc<Shared>, Weak<RedeemNode>) {
 }
 
 fn run(ctx: &Ctx, out: &mut Out) {
+    leg_c_races(ctx, out);
     let bound: usize = ctx.tier.pick(2, 3);
     let stride = 8;
     let horizon = 100_000;
@@ -296,4 +297,165 @@ fn run(ctx: &Ctx, out: &mut Out) {
         ctx.end();
     }
     let _ = (run_schedule as fn(&[Body], &[usize], usize, usize) -> RunResult, Tier::Quick, Rc::new(0));
+}
+
+// ---------------------------------------------------------------------------------------------
+// Free-running pass under a happens-before race detector.
+//
+// The controlled scheduler only hands control over at the H2 points, so memory shared by code
+// *between* two points (in particular inside a C jet) is invisible to it. This pass runs the same
+// kind of bodies on two unmanaged threads under valgrind's helgrind, whose verdict does not depend
+// on timing: two accesses to one location from different threads, at least one a write, with no
+// happens-before edge between them, are reported however the threads happened to be scheduled.
+// Only reports whose stacks are inside libsimplicity's C code count (Rust's futex-based locks are
+// not understood by helgrind, so reports in Rust frames are not evidence of anything).
+
+/// `comp witness jet` for every Elements-family jet (which includes the core jets), on every corner input
+fn race_programs(part: usize, parts: usize) -> Vec<(String, Arc<RedeemNode>)> {
+    use crate::reference::unify::{infer, Infer};
+    use crate::space::programs::Prog;
+    let fam = Fam::Elements;
+    let mut v = vec![];
+    for j in 0..fam.n_jets() as u16 {
+        if j as usize % parts != part {
+            continue;
+        }
+        let dag: Dag = vec![Node { sym: Sym::Witness, l: 0, r: 0 }, Node { sym: Sym::Jet(j), l: 0, r: 0 }, Node { sym: Sym::Comp, l: 0, r: 1 }];
+        let arrows = match infer(&dag, fam, false) {
+            Infer::Ok(a) => a,
+            Infer::Err(..) => continue,
+        };
+        let p = Prog { dag: dag.clone(), fam, arrows };
+        let (assignments, _) = p.witness_assignments(6, 64);
+        let n = assignments.len();
+        for (k, wit) in assignments.iter().enumerate() {
+            let _ = n;
+            let r = types::Context::with_context(|tctx| {
+                let built = build(&tctx, &dag, fam, &|i| wit[i].as_ref().map(|v| v.to_value(&p.arrows[i].1))).ok()?;
+                built[2].finalize_unpruned().ok()
+            });
+            if let Some(r) = r {
+                v.push((format!("{}#{k}", fam.jet(j)), r));
+            }
+        }
+    }
+    v
+}
+
+fn race_run_all(progs: &[(String, Arc<RedeemNode>)]) -> Vec<String> {
+    let env = crate::space::envs::build(&crate::space::envs::base_env());
+    progs
+        .iter()
+        .map(|(_, r)| match BitMachine::for_program(r) {
+            Err(e) => format!("limits:{e}"),
+            Ok(mut mac) => match mac.exec(r, &env.env) {
+                Ok(v) => format!("ok:{}", v.iter_padded().map(|b| if b { '1' } else { '0' }).collect::<String>()),
+                Err(e) => format!("err:{e}"),
+            },
+        })
+        .collect()
+}
+
+/// `mc --race-body`: what runs under the race detector (and, without it, a plain differential run)
+pub fn race_body(part: usize, parts: usize) {
+    let progs = Arc::new(race_programs(part, parts));
+    let sequential = race_run_all(&progs);
+    let hs: Vec<_> = (0..2)
+        .map(|_| {
+            let progs = progs.clone();
+            std::thread::spawn(move || race_run_all(&progs))
+        })
+        .collect();
+    let mut bad = 0;
+    for (t, h) in hs.into_iter().enumerate() {
+        let got = h.join().expect("race body thread panicked");
+        for (k, (g, w)) in got.iter().zip(&sequential).enumerate() {
+            if g != w {
+                bad += 1;
+                println!("RACE-RESULT-DIFFERS thread={t} program={} concurrent={g} sequential={w}", progs[k].0);
+            }
+        }
+    }
+    println!("RACE-BODY programs={} threads=2 differing={bad}", progs.len());
+}
+
+/// run `mc --race-body` under helgrind and judge the report
+fn leg_c_races(ctx: &Ctx, out: &mut Out) {
+    let parts = 8;
+    for part in 0..parts {
+        leg_c_races_part(ctx, out, part, parts);
+    }
+}
+
+fn leg_c_races_part(ctx: &Ctx, out: &mut Out, part: usize, parts: usize) {
+    let leg = "c-races";
+    if !ctx.mine() {
+        return;
+    }
+    let label = || format!("2 unmanaged threads x every Elements jet (part {part}/{parts}) on its corner inputs, under helgrind");
+    if !ctx.begin(leg, &label) {
+        return;
+    }
+    out.evaluations += 1;
+    let exe = std::env::current_exe().expect("current exe");
+    let xml = exe.with_file_name(format!("helgrind-{}-{part}.xml", std::process::id()));
+    let res = std::process::Command::new("valgrind")
+        .args(["--tool=helgrind", "--xml=yes", "--history-level=approx", "--quiet"])
+        .arg(format!("--xml-file={}", xml.display()))
+        .arg(&exe)
+        .arg("--race-body")
+        .arg(part.to_string())
+        .arg(parts.to_string())
+        .output();
+    let o = match res {
+        Ok(o) => o,
+        Err(e) => panic!("cannot run valgrind: {e}"),
+    };
+    let stdout = String::from_utf8_lossy(&o.stdout).to_string();
+    let report = std::fs::read_to_string(&xml).unwrap_or_default();
+    let _ = std::fs::remove_file(&xml);
+    let Some(summary) = stdout.lines().find(|l| l.starts_with("RACE-BODY ")) else {
+        panic!("race body did not complete under helgrind: status {:?}, stderr {}", o.status, String::from_utf8_lossy(&o.stderr).chars().take(400).collect::<String>());
+    };
+    let nprogs: u64 = summary.split("programs=").nth(1).and_then(|s| s.split(' ').next()).and_then(|s| s.parse().ok()).unwrap_or(0);
+    out.states += nprogs;
+    out.transitions += 3 * nprogs;
+    out.nontrivial += nprogs;
+    for l in stdout.lines().filter(|l| l.starts_with("RACE-RESULT-DIFFERS")) {
+        out.violation("race:result-differs", leg, label(), l.to_string());
+    }
+    // one <error> element per report; take the function names of its first stack
+    let mut total = 0;
+    let mut in_c = 0;
+    for e in report.split("<error>").skip(1) {
+        if !e.contains("<kind>Race</kind>") {
+            continue;
+        }
+        total += 1;
+        // frames of the report: (function, source directory)
+        let frames: Vec<(&str, &str)> = e
+            .split("<frame>")
+            .skip(1)
+            .map(|f| {
+                let get = |tag: &str| f.split(&format!("<{tag}>")).nth(1).and_then(|s| s.split(&format!("</{tag}>")).next()).unwrap_or("");
+                (get("fn"), get("dir"))
+            })
+            .collect();
+        let fns: Vec<&str> = frames.iter().map(|f| f.0).collect();
+        // libsimplicity code: exported symbols carry the crate's prefix, static functions are
+        // recognised by the vendored source directory
+        let cfn = frames.iter().take(8).find(|(f, d)| f.starts_with("rustsimplicity_0_7_") || d.contains("/depend/simplicity")).map(|f| f.0);
+        if cfn.is_some() {
+            in_c += 1;
+            let what = e.split("<what>").nth(1).and_then(|s| s.split("</what>").next()).unwrap_or("data race");
+            let site = cfn.unwrap_or("?");
+            out.violation(&format!("race:c-code:{site}"), leg, label(), format!("helgrind: {what}; stack: {}", fns.iter().take(6).copied().collect::<Vec<_>>().join(" < ")));
+        }
+    }
+    out.note(format!("c-races: helgrind reported {total} races, {in_c} with a libsimplicity C frame (only those count: Rust's futex locks are invisible to helgrind)"));
+    if in_c == 0 {
+        out.outcome("c-races:none");
+        out.sample(leg, || (label(), format!("{nprogs} jet programs on 2 threads: no unordered conflicting accesses in C code")));
+    }
+    ctx.end();
 }
